@@ -575,3 +575,18 @@ def fx_shared(fx):
     c = _ctx()
     n = order.shared_accumulator(c, fx, ["src/lib.rs"], only=lambda fid: "sharedfx::" in fid)
     return n == 3 and _fires(c, "sharedfx::bad_blocks") and not _fires(c, "sharedfx::ok_blocks") and not _fires(c, "sharedfx::ok_sorted")
+
+
+def fx_hint(fx):
+    from rules import capsrc
+    c = _ctx()
+    n = capsrc.hint_only_reserves(c, fx, ["src/lib.rs"], only=lambda fid: "hintfx::" in fid)
+    return n == 2 and _fires(c, "bad_batch") and not _fires(c, "ok_batch")
+
+
+def fx_builder(fx):
+    from rules import flow
+    c1, c2 = _ctx(), _ctx()
+    n1 = flow.builder_consumes(c1, fx, "src/lib.rs", "builderfx::OkBuilder")
+    n2 = flow.builder_consumes(c2, fx, "src/lib.rs", "builderfx::BadBuilder")
+    return n1 == 2 and n2 == 2 and not c1.violations and len(c2.violations) == 1 and "content" in c2.violations[0]["construct"]
